@@ -301,14 +301,18 @@ DeadOnly(src) ==
     LET dead == { i \in 1..Len(src) : src[i].k \notin CondKinds /\ ~LineActive(src, i) }
         live == { i \in 1..Len(src) : src[i].k \notin CondKinds } \ dead
     IN (UNION { LineWords(src[i]) : i \in dead }) \ (UNION { LineWords(src[i]) : i \in live })
+InactiveDevSets == { {"NestedIfIgnoresParent"}, {"InactiveDirectivesEffective"}, {"NestedIfIgnoresParent", "InactiveDirectivesEffective"} }
+DevName(D) == IF D = {"NestedIfIgnoresParent"} THEN "NestedIfIgnoresParent"
+              ELSE IF D = {"InactiveDirectivesEffective"} THEN "InactiveDirectivesEffective"
+              ELSE "NestedIfIgnoresParent+InactiveDirectivesEffective"
+ExplainedBy(src, out, D) == NormLines(src, SplitNl(out)) = NormLines(src, SplitNl(FlatLines(Run(src, D).out)))
 InactiveBranchSilent(src, out) ==
     /\ \A l \in Range(out) : l.s \in DeadOnly(src) => l \in Range(RefOut(src))
-    /\ (ExpansionEqualsReference(src, out)
-        \/ \A d \in InactiveDevs : NormLines(src, SplitNl(out)) # NormLines(src, SplitNl(FlatLines(Run(src, {d}).out))))
+    /\ (ExpansionEqualsReference(src, out) \/ \A D \in InactiveDevSets : ~ExplainedBy(src, out, D))
 \* which inactive-branch deviation explains the output ("" if none)
 ExplainingDev(src, out) ==
-    LET D == { d \in InactiveDevs : NormLines(src, SplitNl(out)) = NormLines(src, SplitNl(FlatLines(Run(src, {d}).out))) }
-    IN IF D = {} THEN "" ELSE CHOOSE d \in D : TRUE
+    LET S == { D \in InactiveDevSets : ExplainedBy(src, out, D) }
+    IN IF S = {} THEN "" ELSE DevName(CHOOSE D \in S : \A E \in S : Cardinality(D) <= Cardinality(E))
 
 ---------------------------------------------------------------------------
 (* where the output first leaves the reference: index of the source line   *)
